@@ -73,6 +73,8 @@ pub struct FileAlloc {
     pub free: Vec<u32>,
     /// the pages holding the free list itself, head first.
     pub fl_pages: Vec<u32>,
+    /// the free list page by page, head first: (page number, the items it holds in stored order)
+    pub fl_portions: Vec<(u32, Vec<u32>)>,
     /// pages in use by the current state (sorted ascending).
     pub live: Vec<u32>,
     pub file_pages: u64,
@@ -309,6 +311,7 @@ fn path_str(p: &[u8]) -> String {
 struct FreeListWalk {
     free: BTreeSet<u32>,
     fl_pages: Vec<u32>,
+    fl_portions: Vec<(u32, Vec<u32>)>,
 }
 
 fn walk_free_list(
@@ -321,6 +324,7 @@ fn walk_free_list(
     let mut free = BTreeSet::new();
     let mut fl_pages: Vec<u32> = Vec::new();
     let mut fl_set: HashSet<u32> = HashSet::new();
+    let mut fl_portions: Vec<(u32, Vec<u32>)> = Vec::new();
     let mut pn = head;
     while pn != 0 {
         if pn >= bump {
@@ -349,6 +353,7 @@ fn walk_free_list(
         if count == 0 {
             p.add("freelist", format!("{name}: free-list page {pn} holds no items"));
         }
+        fl_portions.push((pn, (0..count).map(|i| u32_at(&page, 6 + 4 * i).unwrap_or(0)).collect()));
         for i in 0..count {
             let item = u32_at(&page, 6 + 4 * i).unwrap_or(0);
             if item == 0 {
@@ -369,7 +374,7 @@ fn walk_free_list(
             p.add("freelist", format!("{name}: free-list page {fl} is itself listed as free"));
         }
     }
-    FreeListWalk { free, fl_pages }
+    FreeListWalk { free, fl_pages, fl_portions }
 }
 
 // ---------------------------------------------------------------------------------------------
@@ -744,6 +749,7 @@ fn decode_inner(dir: &Path, d: &mut Decoded, p: &mut Problems) {
         bump: m.bbn_bump,
         free: bbn_fl.free.iter().copied().collect(),
         fl_pages: bbn_fl.fl_pages.clone(),
+        fl_portions: bbn_fl.fl_portions.clone(),
         live: bbn_live,
         file_pages: bbn_file.as_ref().map(|f| f.pages()).unwrap_or(0),
     };
@@ -863,6 +869,7 @@ fn decode_inner(dir: &Path, d: &mut Decoded, p: &mut Problems) {
         bump: m.ln_bump,
         free: ln_fl.free.iter().copied().collect(),
         fl_pages: ln_fl.fl_pages.clone(),
+        fl_portions: ln_fl.fl_portions.clone(),
         live: ln_live.into_iter().collect(),
         file_pages: ln_file.as_ref().map(|f| f.pages()).unwrap_or(0),
     };
